@@ -78,6 +78,7 @@ func c19Prop(t *testing.T, k *verifkit.Kit) func(c c19Case) error {
 				)
 				endC := make(chan struct{})
 				started := make(chan struct{})
+				var post []rtnetlink.Message // messages already received when the watch is cancelled
 				w.watch = func(ctx context.Context, notify func(changeSet)) error {
 					mu.Lock()
 					notifyFn = notify
@@ -87,6 +88,14 @@ func c19Prop(t *testing.T, k *verifkit.Kit) func(c c19Case) error {
 					case <-endC:
 					case <-ctx.Done():
 					}
+					// as osWatch does: a batch that Receive() had already returned when the
+					// context was cancelled is still delivered before the watch function returns
+					mu.Lock()
+					p := post
+					mu.Unlock()
+					if len(p) > 0 {
+						notify(process(p))
+					}
 					return nil
 				}
 				// no cancellation on the failure paths: a notifier blocked while holding the
@@ -94,7 +103,9 @@ func c19Prop(t *testing.T, k *verifkit.Kit) func(c c19Case) error {
 				// operations), so that the bubble ends with a recoverable deadlock panic
 				// instead of a goroutine waiting on a mutex, which synctest cannot see
 				watchDone := make(chan struct{})
-				go func() { _ = w.Watch(context.Background()); close(watchDone) }()
+				wctx, wcancel := context.WithCancel(context.Background())
+				_ = wcancel // only called by the "end" action, never on a failure path
+				go func() { _ = w.Watch(wctx); close(watchDone) }()
 				<-started
 				var subs []*c19Sub
 				ended := false
@@ -196,7 +207,38 @@ func c19Prop(t *testing.T, k *verifkit.Kit) func(c c19Case) error {
 							continue
 						}
 						ended = true
-						close(endC)
+						// a last batch in flight at the moment of cancellation
+						var msgs []rtnetlink.Message
+						for _, l := range a.Links {
+							m := &rtnetlink.LinkMessage{}
+							if l.Oper >= 0 {
+								m.Attributes = &rtnetlink.LinkAttributes{Name: l.Iface, OperationalState: rtnetlink.OperationalState(l.Oper)}
+							}
+							msgs = append(msgs, m)
+							ch, ok := c19OperChange[l.Oper]
+							if !ok {
+								continue
+							}
+							for _, s := range subs {
+								switch {
+								case s.iface != l.Iface || s.mask&ch == 0:
+									filtered++
+								case len(s.queue) >= 8:
+									dropped++
+								default:
+									s.queue = append(s.queue, ch)
+									delivered++
+								}
+							}
+						}
+						mu.Lock()
+						post = msgs
+						mu.Unlock()
+						if a.N%2 == 0 {
+							wcancel() // the watch ends because its context is cancelled (as in production)
+						} else {
+							close(endC) // ... or because the event source ended
+						}
 						select {
 						case <-watchDone:
 						case <-time.After(time.Minute):
@@ -210,7 +252,7 @@ func c19Prop(t *testing.T, k *verifkit.Kit) func(c c19Case) error {
 				}
 				if !ended {
 					ended = true
-					close(endC)
+					wcancel()
 					<-watchDone
 				}
 				// every channel registered before the end drains to the model's remainder and is closed
@@ -266,7 +308,11 @@ func c19Gen(t *rapid.T) c19Case {
 			c.Actions = append(c.Actions, c19Action{Kind: "drain", Sub: rapid.IntRange(0, 7).Draw(t, "sub"), N: rapid.IntRange(1, 10).Draw(t, "n")})
 		case 4:
 			if rapid.IntRange(0, 3).Draw(t, "end") == 0 {
-				c.Actions = append(c.Actions, c19Action{Kind: "end"})
+				a := c19Action{Kind: "end", N: rapid.IntRange(0, 1).Draw(t, "endkind")}
+				for j, m := 0, rapid.IntRange(0, 3).Draw(t, "inflight"); j < m; j++ {
+					a.Links = append(a.Links, c19Link{Iface: rapid.SampledFrom(c19Ifaces).Draw(t, "eiface"), Oper: rapid.SampledFrom([]int{2, 6, 5}).Draw(t, "eoper")})
+				}
+				c.Actions = append(c.Actions, a)
 			}
 		default:
 			a := c19Action{Kind: "notify"}
@@ -304,6 +350,10 @@ func c19Singles(yield func(c19Case) bool) {
 	var many []c19Link
 	for i := 0; i < 9; i++ {
 		many = append(many, c19Link{Iface: "eth0", Oper: []int{6, 2}[i%2]})
+	}
+	for n := 0; n < 2; n++ {
+		yield(c19Case{Actions: []c19Action{{Kind: "subscribe", Iface: "eth0", Mask: uint(LinkDown)}, {Kind: "notify", Links: []c19Link{{Iface: "eth0", Oper: 6}}},
+			{Kind: "end", N: n, Links: []c19Link{{Iface: "eth0", Oper: 2}, {Iface: "eth0", Oper: 6}}}, {Kind: "drain", Sub: 0, N: 4}}})
 	}
 	yield(c19Case{Actions: []c19Action{{Kind: "subscribe", Iface: "eth0", Mask: 127}, {Kind: "notify", Links: many}, {Kind: "notify", Links: many[:3]},
 		{Kind: "drain", Sub: 0, N: 3}, {Kind: "notify", Links: many[:5]}, {Kind: "end"}, {Kind: "drain", Sub: 0, N: 10}}})
